@@ -49,9 +49,24 @@ pub enum Via {
 pub type Req = (u32, Outcome);
 pub const RES: &str = "c20-res";
 
-#[derive(Clone)]
+/// Mock inner service. Like tower's own services, readiness belongs to the INSTANCE that was
+/// polled: a clone starts un-ready, and `call` on an instance that was not driven to readiness is a
+/// breach of the Service contract (recorded, reported by the harness).
 pub struct Inner {
     pub calls: Arc<AtomicUsize>,
+    pub called_ids: Arc<std::sync::Mutex<Vec<u32>>>,
+    pub breaches: Arc<AtomicUsize>,
+    ready: bool,
+}
+impl Inner {
+    pub fn new(calls: Arc<AtomicUsize>) -> Self {
+        Inner { calls, called_ids: Arc::new(std::sync::Mutex::new(vec![])), breaches: Arc::new(AtomicUsize::new(0)), ready: false }
+    }
+}
+impl Clone for Inner {
+    fn clone(&self) -> Self {
+        Inner { calls: self.calls.clone(), called_ids: self.called_ids.clone(), breaches: self.breaches.clone(), ready: false }
+    }
 }
 struct Mock {
     id: u32,
@@ -77,9 +92,15 @@ impl Service<Req> for Inner {
     type Error = String;
     type Future = Pin<Box<dyn Future<Output = Result<u32, String>> + Send>>;
     fn poll_ready(&mut self, _: &mut Context<'_>) -> Poll<Result<(), String>> {
+        self.ready = true;
         Poll::Ready(Ok(()))
     }
     fn call(&mut self, r: Req) -> Self::Future {
+        if !self.ready {
+            self.breaches.fetch_add(1, Ordering::SeqCst);
+        }
+        self.ready = false;
+        self.called_ids.lock().unwrap_or_else(|e| e.into_inner()).push(r.0);
         self.calls.fetch_add(1, Ordering::SeqCst);
         Box::pin(Mock { id: r.0, o: r.1, polled: false })
     }
@@ -114,6 +135,8 @@ pub struct C20 {
     cfg: Cfg,
     svc: Option<SentinelService<Inner, Req>>,
     calls: Arc<AtomicUsize>,
+    called_ids: Arc<std::sync::Mutex<Vec<u32>>>,
+    breaches: Arc<AtomicUsize>,
     live: Vec<Live>,
     inflight: u32,
     next_id: u32,
@@ -126,7 +149,10 @@ pub struct C20 {
 
 impl C20 {
     pub fn new(cfg: &Cfg) -> Self {
-        C20 { cfg: cfg.clone(), svc: None, calls: Arc::new(AtomicUsize::new(0)), live: vec![], inflight: 0, next_id: 0, tainted: false, admitted_n: 0, rejected_n: 0, resolved_err: 0, dropped_unresolved: 0 }
+        C20 { cfg: cfg.clone(), svc: None, calls: Arc::new(AtomicUsize::new(0)), called_ids: Arc::new(std::sync::Mutex::new(vec![])), breaches: Arc::new(AtomicUsize::new(0)), live: vec![], inflight: 0, next_id: 0, tainted: false, admitted_n: 0, rejected_n: 0, resolved_err: 0, dropped_unresolved: 0 }
+    }
+    fn calls_of(&self, id: u32) -> usize {
+        self.called_ids.lock().unwrap_or_else(|e| e.into_inner()).iter().filter(|x| **x == id).count()
     }
     fn check_counts(&self, after: &str) -> Result<(), String> {
         if self.tainted {
@@ -155,7 +181,9 @@ impl Subject for C20 {
         isolation::load_rules(vec![Arc::new(isolation::Rule { id: "iso".into(), resource: RES.into(), threshold: self.cfg.threshold, ..Default::default() })]);
         self.calls = Arc::new(AtomicUsize::new(0));
         let role = if self.cfg.server { ServiceRole::Server } else { ServiceRole::Client };
-        let inner = Inner { calls: self.calls.clone() };
+        let inner = Inner::new(self.calls.clone());
+        self.called_ids = inner.called_ids.clone();
+        self.breaches = inner.breaches.clone();
         let s = match self.cfg.via {
             Via::Direct => {
                 let mut s = SentinelService::new(inner, role).with_extractor(extract);
@@ -209,19 +237,33 @@ impl Subject for C20 {
             Op::Call(o) => {
                 self.next_id += 1;
                 let id = self.next_id;
-                let before = self.calls.load(Ordering::SeqCst);
                 let expect_admit = self.inflight + 1 <= self.cfg.threshold;
-                let fut = self.svc.as_mut().unwrap().call((id, *o));
-                let called = self.calls.load(Ordering::SeqCst) - before;
-                if !self.tainted {
-                    if expect_admit && called != 1 {
-                        return Err(format!("inner-not-called: request {} fits the isolation threshold ({} in flight, threshold {}) but the inner service was called {} times", id, self.inflight, self.cfg.threshold, called));
-                    }
-                    if !expect_admit && called != 0 {
-                        return Err(format!("inner-called-for-rejected: request {} exceeds the threshold ({} in flight) but the inner service was called", id, self.inflight));
+                let conc = |this: &Self| stat::get_resource_node(&RES.to_string()).map(|n| n.current_concurrency()).unwrap_or(0);
+                let before = conc(self);
+                // the Service contract: drive the service to readiness, then call
+                {
+                    let waker = Waker::noop();
+                    let mut cx = Context::from_waker(waker);
+                    match self.svc.as_mut().unwrap().poll_ready(&mut cx) {
+                        Poll::Ready(Ok(())) => {}
+                        other => return Err(format!("not-ready: poll_ready of the middleware answered {:?} over an inner service that is always ready", other.map(|r| r.map_err(|e| e.to_string())))),
                     }
                 }
-                let admitted = called == 1;
+                let fut = self.svc.as_mut().unwrap().call((id, *o));
+                // admitted = an entry was taken for this request (the in-flight count went up by one)
+                let admitted = conc(self) == before + 1;
+                let called = self.calls_of(id);
+                if !self.tainted {
+                    if expect_admit != admitted {
+                        return Err(format!("admission-mismatch: request {} with {} in flight and threshold {} was {}", id, self.inflight, self.cfg.threshold, if admitted { "admitted" } else { "rejected" }));
+                    }
+                    if !admitted && called != 0 {
+                        return Err(format!("inner-called-for-rejected: request {} exceeds the threshold ({} in flight) but the inner service was called", id, self.inflight));
+                    }
+                    if called > 1 {
+                        return Err(format!("inner-called-twice: request {}: {} inner calls", id, called));
+                    }
+                }
                 if admitted {
                     self.inflight += 1;
                     self.admitted_n += 1;
@@ -237,6 +279,23 @@ impl Subject for C20 {
                 let l = &mut self.live[*j];
                 l.polls += 1;
                 let r = l.fut.as_mut().poll(&mut cx);
+                let (lid, ladm) = (l.id, l.admitted);
+                if !self.tainted {
+                    // by the first poll the inner service has been called exactly once for an admitted
+                    // request (at call time or lazily), never for a rejected one, and only on an
+                    // instance that had been driven to readiness
+                    let n = self.calls_of(lid);
+                    if ladm && n != 1 {
+                        return Err(format!("inner-not-called: admitted request {} has been polled but the inner service was called {} times", lid, n));
+                    }
+                    if !ladm && n != 0 {
+                        return Err(format!("inner-called-for-rejected: rejected request {} reached the inner service", lid));
+                    }
+                    if self.breaches.load(Ordering::SeqCst) != 0 {
+                        return Err(format!("inner-called-unready: request {}: the inner service instance that was called had not been driven to readiness by poll_ready (a clone of the ready one?)", lid));
+                    }
+                }
+                let l = &mut self.live[*j];
                 match r {
                     Poll::Pending => {
                         let should_pend = l.admitted && l.polls == 1 && matches!(l.o, Outcome::PendingThenOk | Outcome::PendingThenErr);
